@@ -116,6 +116,10 @@ impl OperationControl for Repeat {
             // code, i.e. GreedyFixed, ReluctantFixed, UnambiguousRepeat),
             // because each of these subclasses overrides matches_iter anyway,
             // so this code can never be reached.
+            #[cfg(regexml_verif)]
+            if self.min == 0 && matcher.verif_seen_zero_length_match(self, position) {
+                crate::verif::note_cutoff("zero_length_history");
+            }
             if self.min == 0 && !matcher.is_duplicate_zero_length_match(self, position) {
                 // add a match at the current position if zero occurrences are allowed
                 iterators.push(Box::new(std::iter::once(position)));
